@@ -12,9 +12,11 @@ import os, subprocess, sys, tempfile, shutil, glob, re
 VERIF = os.path.dirname(os.path.abspath(__file__))
 REPO = os.environ.get("VERIF_REPO", "/repo")
 
-def run_case(prop, path):
+def run_case(prop, path, seeded=False):
     lines = open(path).read().splitlines()
     expect = [l for l in lines if l.startswith("# expect:")]
+    if seeded:
+        expect = ["# expect: fail"]  # a seeded change only has to be reported as a violation of its property
     if not expect:
         return (False, "no expect header")
     exp = expect[0][len("# expect:"):].split()
@@ -49,6 +51,13 @@ def main():
             n += 1
             ok, msg = run_case(prop, path)
             print("%s %s/%s: %s" % ("ok  " if ok else "FAIL", prop, os.path.basename(path), msg))
+            if not ok:
+                bad += 1
+        # seeded changes written by fresh sub-agents (seeded/<prop>-*/patch.diff) are canaries too
+        for path in sorted(glob.glob(os.path.join(VERIF, "seeded", prop + "-*", "patch.diff"))):
+            n += 1
+            ok, msg = run_case(prop, path, seeded=True)
+            print("%s seeded/%s: %s" % ("ok  " if ok else "FAIL", os.path.basename(os.path.dirname(path)), msg))
             if not ok:
                 bad += 1
     print("selftest: %d cases, %d failed" % (n, bad))
